@@ -512,11 +512,20 @@ func newConnectableObservableImpl[T any](source Observable[T], config Connectabl
 }
 
 type connectableObservableImpl[T any] struct {
-	mu           sync.Mutex
+	mu           sync.Mutex // protects subscription and serializes connections
 	config       ConnectableConfig[T]
 	source       Observable[T]
+	subjectMu    sync.Mutex // protects subject; never held while calling into the subject
 	subject      Subject[T]
 	subscription Subscription
+}
+
+// currentSubject returns the subject that currently receives the source.
+func (s *connectableObservableImpl[T]) currentSubject() Subject[T] {
+	s.subjectMu.Lock()
+	defer s.subjectMu.Unlock()
+
+	return s.subject
 }
 
 // Connect connects the ConnectableObservable. When connected, the ConnectableObservable
@@ -543,19 +552,29 @@ func (s *connectableObservableImpl[T]) Connect() Subscription {
 // The Subscription might be already disposed when the Connect method returns.
 func (s *connectableObservableImpl[T]) ConnectWithContext(ctx context.Context) Subscription {
 	s.mu.Lock()
-	if s.subscription == nil || s.subscription.IsClosed() {
-		s.subscription = s.source.SubscribeWithContext(ctx, s.subject)
+
+	if s.subscription != nil && !s.subscription.IsClosed() {
+		subscription := s.subscription
 		s.mu.Unlock()
-		s.subscription.Add(func() {
-			if s.config.ResetOnDisconnect {
-				s.subject = s.config.Connector()
-			}
-		})
-	} else {
-		s.mu.Unlock()
+
+		return subscription
 	}
 
-	return s.subscription
+	subscription := s.source.SubscribeWithContext(ctx, s.currentSubject())
+	s.subscription = subscription
+	s.mu.Unlock()
+
+	subscription.Add(func() {
+		if s.config.ResetOnDisconnect {
+			subject := s.config.Connector()
+
+			s.subjectMu.Lock()
+			s.subject = subject
+			s.subjectMu.Unlock()
+		}
+	})
+
+	return subscription
 }
 
 func (s *connectableObservableImpl[T]) Subscribe(observer Observer[T]) Subscription {
@@ -563,5 +582,5 @@ func (s *connectableObservableImpl[T]) Subscribe(observer Observer[T]) Subscript
 }
 
 func (s *connectableObservableImpl[T]) SubscribeWithContext(ctx context.Context, observer Observer[T]) Subscription {
-	return s.subject.SubscribeWithContext(ctx, observer)
+	return s.currentSubject().SubscribeWithContext(ctx, observer)
 }
